@@ -8,6 +8,10 @@ From Coq Require Import ZArith List Bool.
 Import ListNotations.
 Open Scope Z_scope.
 
+(* Config.Validate lets the process start only with wait-before < graceful, and (fix 164dd13, flag [nonneg]) with
+   wait-before >= 0; cf. Model/Config.v:cf_periods_validate, related in Proofs/ShutdownP.v *)
+Definition sd_startable (nonneg : bool) (W G : Z) : bool := negb (nonneg && (W <? 0)) && (W <? G).
+
 Record sd_req := mk_sd_req { sd_arrival : Z; sd_service : Z }.
 
 (* time.Sleep of a non-positive duration returns immediately *)
